@@ -135,18 +135,89 @@ Theorem C01_rotate : forall a b, canonical a && canonical b = true ->
 Proof. exact (rotate_holds eq_refl). Qed.
 Print Assumptions C01_rotate.
 
+(* Cut: positions given as one integer or a 1-D list of integers, non-decreasing within 0..#b; b a non-empty list or string *)
+Theorem C01_cut : forall a b, canonical a && canonical b = true ->
+  dom_dyad "eval_dyad_cut" a b = true ->
+  m_dyad "eval_dyad_cut" a b = s_dyad "eval_dyad_cut" a b.
+Proof. exact cut_holds. Qed.
+Print Assumptions C01_cut.
+
+(* Split: one positive size or a 1-D list of positive sizes (cycling), lists and strings, last segment shorter —
+   holds because the regenerated flag says a single size is cut at its multiples (fix: commit) *)
+Theorem C01_split : forall a b, canonical a && canonical b = true ->
+  dom_dyad "eval_dyad_split" a b = true ->
+  m_dyad "eval_dyad_split" a b = s_dyad "eval_dyad_split" a b.
+Proof. exact (split_dispatch_holds eq_refl). Qed.
+Print Assumptions C01_split.
+
 (* Reverse: every operand, atoms included — holds because the regenerated flag says atoms are returned unchanged *)
 Theorem C01_reverse : forall a, canonical a = true ->
   m_monad "eval_monad_reverse" a = s_monad "eval_monad_reverse" a.
 Proof. exact (reverse_holds eq_refl). Qed.
 Print Assumptions C01_reverse.
 
+(* Join: every pair of operands (two characters excepted), outside the classes "join-ragged" (member arrays of equal
+   length but different shape: ValueError) and "homogenise" (the joined list would be homogenised) *)
+Theorem C01_join : forall a b, canonical a && canonical b = true ->
+  dom_dyad "eval_dyad_join" a b = true -> join_ragged a b = false ->
+  norm (VL (members a ++ members b)) = VL (members a ++ members b) ->
+  m_dyad "eval_dyad_join" a b = s_dyad "eval_dyad_join" a b.
+Proof. exact join_holds. Qed.
+Print Assumptions C01_join.
+
+(* Index: a list or string at an in-range integer or at a 1-D list of in-range integers (any order, repeats) *)
+Theorem C01_index : forall a b, canonical a && canonical b = true ->
+  dom_dyad "eval_dyad_at_index" a b = true ->
+  (forall l zs, a = VL l -> ints_of (members b) = Some zs -> is_arr b = true ->
+     norm (VL (map (ix VU l) zs)) = VL (map (ix VU l) zs)) ->
+  m_dyad "eval_dyad_at_index" a b = s_dyad "eval_dyad_at_index" a b.
+Proof. exact index_holds. Qed.
+Print Assumptions C01_index.
+
+(* ---- atomic monads: vec_fn applies the scalar function through any nesting, whatever the leaves ---- *)
+Theorem C01_atomic_vec_fn : forall (sf : val -> res) fuel a, (depth a < fuel)%nat -> vec1 fuel (leaf1 sf) a = s1 sf a.
+Proof. exact vec1_spec. Qed.
+Print Assumptions C01_atomic_vec_fn.
+Theorem C01_negate : forall a, canonical a = true -> m_monad "eval_monad_negate" a = s_monad "eval_monad_negate" a.
+Proof. exact negate_holds. Qed.
+Print Assumptions C01_negate.
+Theorem C01_floor : forall a, canonical a = true -> all_leaves floor_fits a = true ->
+  m_monad "eval_monad_floor" a = s_monad "eval_monad_floor" a.
+Proof. exact floor_holds. Qed.
+Print Assumptions C01_floor.
+Theorem C01_reciprocal : forall a, canonical a = true -> m_monad "eval_monad_reciprocal" a = s_monad "eval_monad_reciprocal" a.
+Proof. exact reciprocal_holds. Qed.
+Print Assumptions C01_reciprocal.
+(* ---- simple monads ---- *)
+Theorem C01_atom : forall a, canonical a = true -> m_monad "eval_monad_atom" a = s_monad "eval_monad_atom" a.
+Proof. exact atom_holds. Qed.
+Print Assumptions C01_atom.
+Theorem C01_size : forall a, canonical a = true -> dom_monad "eval_monad_size" a = true ->
+  m_monad "eval_monad_size" a = s_monad "eval_monad_size" a.
+Proof. exact size_holds. Qed.
+Print Assumptions C01_size.
+Theorem C01_first : forall a, canonical a = true -> (forall c s, a <> VS (c :: s)) ->
+  m_monad "eval_monad_first" a = s_monad "eval_monad_first" a.
+Proof. exact first_holds. Qed.
+Print Assumptions C01_first.
+Theorem C01_enumerate : forall a, canonical a = true -> m_monad "eval_monad_enumerate" a = s_monad "eval_monad_enumerate" a.
+Proof. exact enumerate_holds. Qed.
+Print Assumptions C01_enumerate.
+Theorem C01_not : forall a, canonical a = true -> dom_monad "eval_monad_not" a = true ->
+  m_monad "eval_monad_not" a = s_monad "eval_monad_not" a.
+Proof. exact not_holds. Qed.
+Print Assumptions C01_not.
+Theorem C01_list : forall a, canonical a = true -> norm (VL [a]) = VL [a] ->
+  m_monad "eval_monad_list" a = s_monad "eval_monad_list" a.
+Proof. exact list_holds. Qed.
+Print Assumptions C01_list.
+
 (* the dispatch tables of create_monad_functions / create_dyad_functions are the ones the model was written
    against, every modelled verb is still dispatched, and Split / Reshape carry their fix: *)
 Theorem C01_all_modelled_verbs_present : check_tables = true.
 Proof. exact tables_checked. Qed.
 Print Assumptions C01_all_modelled_verbs_present.
-Theorem C01_fix_flags : split_by_segment_size && reshape_guards_symbols = true.
+Theorem C01_reshape_fix_flag : reshape_guards_symbols = true.
 Proof. exact eq_refl. Qed.
 
 (* ---- the full statement does not hold of the faithful model: one witness per known-finding class,
@@ -172,11 +243,22 @@ Theorem C01_known_classes_refuted :
   refutes_m "expand-empty" "eval_monad_expand_where" (VL []) = true.
 Proof. exact refuted_witnesses. Qed.
 
+Theorem C01_known_classes_refuted_2 :
+  refutes_m "shape-ragged" "eval_monad_shape" (VL [VI 1; VL [VI 2]]) &&
+  refutes_m "shape-strlike-member" "eval_monad_shape" (VL [VC 97; VC 98]) &&
+  refutes_m "group-sorted-order" "eval_monad_groupby" (VS [104; 101; 108; 108; 111; 32; 102; 111; 111]) &&
+  refutes_m "group-non-numeric" "eval_monad_groupby" (VL [VI 1; VS [97]]) &&
+  refutes_m "range-string-sorted" "eval_monad_range" (VS [104; 101; 108; 108; 111]) = true.
+Proof. exact refuted_witnesses_2. Qed.
+
 (* the statements C01_rotate / C01_reverse are false of the code before the fix: commits (flag = false) *)
 Theorem C01_rotate_refuted_without_axis0 :
   res_eqb (m_rotate_gen false (VI 1) (VL [VL [VI 1; VI 2]; VL [VI 4; VI 5]; VL [VI 5; VI 6]]))
           (s_dyad "eval_dyad_rotate" (VI 1) (VL [VL [VI 1; VI 2]; VL [VI 4; VI 5]; VL [VI 5; VI 6]])) = false.
 Proof. exact rotate_without_axis0. Qed.
+Theorem C01_split_refuted_without_fix :
+  res_eqb (m_split_gen false (VI 3) (VL [VI 1; VI 2; VI 3; VI 4])) (s_dyad "eval_dyad_split" (VI 3) (VL [VI 1; VI 2; VI 3; VI 4])) = false.
+Proof. exact split_without_fix. Qed.
 Theorem C01_reverse_refuted_without_guard :
   m_reverse_gen false (VI 1) = Err /\ s_monad "eval_monad_reverse" (VI 1) = Ok (VI 1).
 Proof. exact reverse_without_guard. Qed.
@@ -200,6 +282,14 @@ Example C01_take_example :
   dom_dyad "eval_dyad_take" (VI (-5)) (VL [VI 1; VI 2; VI 3]) = true /\
   m_dyad "eval_dyad_take" (VI (-5)) (VL [VI 1; VI 2; VI 3]) = Ok (VL [VI 2; VI 3; VI 1; VI 2; VI 3]) /\
   m_dyad "eval_dyad_take" (VI 7) (VS [97; 98; 99]) = Ok (VS [97; 98; 99; 97; 98; 99; 97]).
+Proof. vm_compute. repeat split; reflexivity. Qed.
+
+Example C01_split_cut_example :
+  m_dyad "eval_dyad_split" (VL [VI 1; VI 2]) (VL [VI 1; VI 2; VI 3; VI 4; VI 5; VI 6])
+    = Ok (VL [VL [VI 1]; VL [VI 2; VI 3]; VL [VI 4]; VL [VI 5; VI 6]]) /\
+  m_dyad "eval_dyad_split" (VI 3) (VS [97; 98; 99; 100; 101; 102; 103]) = Ok (VL [VS [97; 98; 99]; VS [100; 101; 102]; VS [103]]) /\
+  dom_dyad "eval_dyad_cut" (VL [VI 1; VI 1]) (VL [VI 1; VI 2]) = true /\
+  m_dyad "eval_dyad_cut" (VL [VI 1; VI 1]) (VL [VI 1; VI 2]) = Ok (VL [VL [VI 1]; VL []; VL [VI 2]]).
 Proof. vm_compute. repeat split; reflexivity. Qed.
 
 Example C01_rotate_example :
